@@ -7,7 +7,7 @@ package protocol
 //@ func ParseConnectionID
 //@   props C08
 //@   panics when len(b) > 20
-//@   ensures [len] result.l == len(b)
+//@   ensures [len] int(result.l) == len(b)
 //@   modifies nothing
 
 //@ func (c ConnectionID) Len
